@@ -65,11 +65,13 @@ func (r *Reader) ReadUe() (res uint32) {
 
 // ReadSe .
 func (r *Reader) ReadSe() (res int32) {
+	// codeNum k maps to (-1)^(k+1) * Ceil(k/2): odd k -> +(k+1)/2, even k -> -k/2.
+	// Computed in uint64 so that the 32-bit extremes do not overflow.
 	ui32 := r.ReadUe()
 	if ui32&0x01 != 0 {
-		res = (int32(res) + 1) / 2
+		res = int32((uint64(ui32) + 1) / 2)
 	} else {
-		res = -int32(res) / 2
+		res = -int32(ui32 / 2)
 	}
 	return
 }
